@@ -398,6 +398,18 @@ type verdict struct {
 	detail   string
 }
 
+func dropRepeats(rs []row) []row {
+	seen := map[row]bool{}
+	var out []row
+	for _, r := range rs {
+		if !seen[r] {
+			seen[r] = true
+			out = append(out, r)
+		}
+	}
+	return out
+}
+
 func compare(c lineageCase) (verdict, error) {
 	r := repo(c.Files)
 	mv, err := askMaven(r, c.Root)
@@ -411,8 +423,12 @@ func compare(c lineageCase) (verdict, error) {
 	if gerr != nil {
 		return verdict{status: "go-error", detail: gerr.Error(), obs: "the pipeline fails with " + gerr.Error() + " on a lineage Maven builds without error", exp: "same effective dependencies as Maven"}, nil
 	}
-	got := goRows(gp)
-	want := mv.rows
+	// A declaration written twice in one list stays twice in Maven's effective
+	// model when nothing is merged into the list (Maven only warns); the
+	// library records a key once. Rows that repeat an earlier row exactly say
+	// nothing more and are left out on both sides.
+	got := dropRepeats(goRows(gp))
+	want := dropRepeats(mv.rows)
 	show := func(rs []row) string {
 		var sb strings.Builder
 		for _, x := range rs {
@@ -494,6 +510,7 @@ func drawDep(t *rapid.T, managed bool, o genOpts) pDep {
 func drawDepList(t *rapid.T, managed bool, max int, o genOpts, where string) []pDep {
 	var out []pDep
 	seen := map[string]bool{}
+	first := map[string]pDep{}
 	for i, n := 0, rapid.IntRange(0, max).Draw(t, "ndeps"); i < n; i++ {
 		d := drawDep(t, managed, o)
 		ty := d.Type
@@ -502,7 +519,17 @@ func drawDepList(t *rapid.T, managed bool, max int, o genOpts, where string) []p
 		}
 		k := d.G + ":" + d.A + ":" + ty + ":" + d.Classifier
 		if seen[k] && !strings.Contains(","+o.dupSameList+",", ","+where+",") {
+			// A key declared twice with different content is a recorded finding
+			// (maven-same-list-duplicates); the same declaration written twice
+			// (Maven only warns) is inside the domain: whatever is done with the
+			// key must not depend on which copy is looked at.
+			if !strings.Contains(k, "${") && rapid.IntRange(0, 2).Draw(t, "identicaldup") == 0 {
+				out = append(out, first[k])
+			}
 			continue
+		}
+		if !seen[k] {
+			first[k] = d
 		}
 		seen[k] = true
 		out = append(out, d)
